@@ -261,6 +261,45 @@ def _payload_eq(a, b):
     return z3.BoolVal(a == b)
 
 
+def fresh_conditions_unit(U):
+    """the real GridBase.get_boundary_conditions (cache decorators interpreted with their real semantics): every
+    request returns its own BoundariesList object, so customising the conditions one request returned (they are
+    mutable: bcs[axis] = ..., bc.value = ...) cannot change what a later request with the same arguments gets"""
+    def body(it):
+        cls = it.module_attr(it.load_module("pde.grids.base"), "GridBase")
+        grid = Instance(cls, {"_mesh": None, "_cache_methods": {}})
+        made = []
+
+        def from_data(interp, args, kw):
+            obj = Instance(None, {"spec": args[-1] if args else kw.get("data"), "customised": False}, name=f"BoundariesList#{len(made)}")
+            made.append(obj)
+            return obj
+
+        for qual in ("BoundariesBase.from_data", "BoundariesList.from_data"):
+            it.contracts[("pde.grids.boundaries.axes", qual)] = from_data
+        out = []
+        for spec in ("auto_periodic_neumann", "auto_periodic_neumann", {"x": "periodic"}, {"x": "periodic"}):
+            r = it.call(it.getattr(grid, "get_boundary_conditions"), [spec], {"rank": 0})
+            out.append(r)
+            if isinstance(r, Instance):
+                r.attrs["customised"] = True  # the caller modifies what it got
+                fresh_view = r
+        return out, made
+
+    for p, res in enumerate(explore_paths(U, body)):
+        P = prem_of(res.ctx)
+        if res.outcome != "return":
+            U.prove(f"path{p}.returns_normally", P, z3.BoolVal(False), info={"exc": str(res.exc)})
+            continue
+        out, made = res.value
+        ok = all(isinstance(r, Instance) for r in out)
+        U.prove(f"path{p}.every_request_builds_its_conditions", P, z3.BoolVal(ok and len(made) == len(out)))
+        U.prove(f"path{p}.no_two_requests_share_one_mutable_object", P, z3.BoolVal(ok and len({id(r) for r in out}) == len(out)),
+                info={"witness": "bcs = grid.get_boundary_conditions('auto_periodic_neumann'); bcs[axis] = {...}; a later request by the same name", "replay_payload": {"shared_bcs": True}})
+
+    U.assume_note("BoundariesBase.from_data builds a new object on every call (its own parsing is C02)")
+
+
 def same_object_same_key(U):
     def body(it):
         _install(it)
@@ -342,6 +381,7 @@ def wrapper_unit(U):
 UNITS = [(f"key_injectivity[{a}|{b},{w}]", key_unit(a, b, w)) for a, b in PAIRS for w in ("bare", "pair", "list")] + [
     *[(f"numeric_arguments_get_distinct_keys[{w}]", numeric_key_unit(w)) for w in ("keyword", "positional", "nested")],
     *[(f"grid_cache_hash[{k}]", grid_hash_unit(k)) for k in ("CartesianGrid", "PolarSymGrid", "SphericalSymGrid", "CylindricalSymGrid")],
+    ("get_boundary_conditions_returns_fresh_objects", fresh_conditions_unit),
     ("key_determinism", same_object_same_key), ("rebinding_data_invalidates_cached_helpers", rebinding_unit), ("cache_wrapper", wrapper_unit)]
 
 
